@@ -92,6 +92,7 @@ type frame struct {
 	variant0    map[*ssa.BasicBlock]string
 	caller      *frame
 	boundDepth  int
+	loopAlloc   map[*ssa.BasicBlock]string
 	ordOf       map[ssa.Instruction]int
 	escSites    map[ssa.Instruction][]string
 	fvBind      map[*ssa.FreeVar]TV
